@@ -222,7 +222,12 @@ def d7_every_child(chk: Check) -> None:
         for loop in walk_local(fi.node):
             if not isinstance(loop, ast.For):
                 continue
-            it = src(loop.iter)
+            itn = loop.iter
+            while isinstance(itn, ast.Call) and \
+                    isinstance(itn.func, ast.Name) and \
+                    itn.func.id in ("list", "tuple") and len(itn.args) == 1:
+                itn = itn.args[0]     # a snapshot enumerates the same children
+            it = src(itn)
             if it not in ("enumerate({})".format(data),
                           "{}.items()".format(data), data,
                           "{}.non_merged_items()".format(data)):
